@@ -154,6 +154,23 @@ inline void drive_c02()
 }
 
 // ------------------------------------------------------------------ C17
+template <class Z, int I>
+inline void rebuild_one(const typename Z::field_t & f, const model::Node & m, vh::Rng & rng)
+{
+    vh::set_case("%s rebuild: %s", Z::name(), Z::rebuild_form_name(I));
+    typename Z::field_t g = Z::template rebuild_form<I>(f);
+    int gb = Z::config_mismatch(g);
+    vh::ev(Z::depth);
+    vh::stat("rebuilds_through_layer_constructors");
+    if (gb >= 0) vh::viol("rebuild:configuration", std::string(Z::type_string()) + " [" + Z::rebuild_form_name(I) + "] layer " + std::to_string(gb));
+    compare_with_model<Z>(g, m, rng, 40, "rebuild:lookup", Z::rebuild_form_name(I));
+}
+template <class Z, int... Is>
+inline void rebuild_all(const typename Z::field_t & f, const model::Node & m, vh::Rng & rng, std::integer_sequence<int, Is...>)
+{
+    (rebuild_one<Z, Is>(f, m, rng), ...);
+}
+
 template <class Z>
 inline void drive_c17()
 {
@@ -183,6 +200,9 @@ inline void drive_c17()
         unsigned hits = compare_with_model<Z>(g, *m, rng, 150, "rebuild:lookup", "rebuilt");
         compare_with_model<Z>(f, *m, rng, 60, "original:lookup", "original");
         vh::stat("rebuild_in_domain_lookups", hits);
+        // ... and through every other constructor the layers offer for that purpose
+        rebuild_all<Z>(f, *m, rng, std::make_integer_sequence<int, Z::rebuild_forms>{});
+        compare_with_model<Z>(f, *m, rng, 40, "original:lookup", "original after the rebuilds");
     }
     if (bad >= 0) vh::viol("configuration-readback", std::string(Z::type_string()) + " [" + Z::name() + "] layer " + std::to_string(bad) + " (counted from the outside) reports a configuration other than the one it was built with");
     vh::stat("stacks");
